@@ -255,6 +255,35 @@ static void restrict_case(unsigned long set, unsigned long flags)
   vp_wf_check(t, 0);
   re_ok++;
 }
+/* ---- the caches that point at objects are invalidated by a restrict whatever flags the topology was loaded with (C13): NO_DISTANCES only
+ *      ignores what the OS and XML say, matrices added by the user exist all the same ---------------------------------------------------- */
+VP_HARNESS(h_restrict_flags)
+{
+  struct hwloc_topology *t = vp_seed_build(1, 0);
+  unsigned long tf = 0;
+  if (vp_in_bool()) tf |= HWLOC_TOPOLOGY_FLAG_NO_DISTANCES;
+  if (vp_in_bool()) tf |= HWLOC_TOPOLOGY_FLAG_NO_MEMATTRS;
+  if (vp_in_bool()) tf |= HWLOC_TOPOLOGY_FLAG_NO_CPUKINDS;
+  t->flags = tf;      /* the seed does not depend on these flags: the state is the one of a topology loaded with them */
+#ifndef VP_CBMC
+  /* native replay: the real distances code is linked instead of the counting stub; a user matrix over the two Packages is added and its
+   * OBJS_VALID flag observed right after the restrict */
+  unsigned vp_stub_dist_invalidated = 0;
+  { hwloc_obj_t objs[2] = { vp_seed.pkg[0], vp_seed.pkg[1] }; hwloc_uint64_t vals[4] = { 1, 2, 2, 1 };
+    hwloc_distances_add_handle_t hd = hwloc_distances_add_create(t, "vp", HWLOC_DISTANCES_KIND_FROM_USER | HWLOC_DISTANCES_KIND_VALUE_LATENCY, 0);
+    VP_ASSUME(hd != NULL && hwloc_distances_add_values(t, hd, 2, objs, vals, 0) == 0 && hwloc_distances_add_commit(t, hd, 0) == 0 && t->first_dist != NULL); }
+#endif
+  unsigned before = vp_stub_dist_invalidated;
+  hwloc_bitmap_t s = vp_bm(0x03);
+  int r = hwloc_topology_restrict(t, s, 0);
+#ifndef VP_CBMC
+  if (t->first_dist && !(t->first_dist->iflags & HWLOC_INTERNAL_DIST_FLAG_OBJS_VALID)) vp_stub_dist_invalidated++;
+#endif
+  VP_CHECK(r == 0 && t->nb_levels >= 2 && vp_w(t->levels[0][0]->cpuset) == 0x03, "restrict(flags): Package1 and its PUs are removed");
+  VP_CHECK(vp_stub_dist_invalidated > before, "restrict(flags): objects were removed, the object pointers cached in the distances are invalidated whatever the topology flags");
+  VP_WITNESS_IF(tf & HWLOC_TOPOLOGY_FLAG_NO_DISTANCES, "a topology loaded with NO_DISTANCES restricted");
+}
+
 VP_HARNESS(h_restrict_enum)
 {
   /* by cpuset: every non-empty subset of the seed's PUs {0,1,2,5}, plus a set outside the topology; by nodeset: subsets of the seed's nodes */
